@@ -364,3 +364,26 @@ def check_clean(G, families=None):
         if NN.JOINT_DEGREE not in G.nodes[v]:
             return "vertex without joint degree"
     return None
+
+
+def odd_numeric_labels(rng, g, res=None, floats=True):
+    """the same graph on vertex labels that are legal hashables of an unusual kind, all numeric and mutually orderable:
+    'signed'   - ints around zero (-1 and -2 share a hash in CPython);
+    'one-hash' - multiples of 2**61-1, which ALL hash to 0 (distinct, unequal, one hash bucket);
+    'halves'   - numpy float64 half-integers 0.0, 0.5, 1.0, 1.5 ... (rows of a float edge array; int() would merge neighbours)."""
+    import numpy as np
+    kinds = ["signed", "one-hash"] + (["halves"] if floats else [])
+    kind = rng.choice(kinds)
+    nodes = list(g.nodes())
+    n = len(nodes)
+    if kind == "signed":
+        m = {v: i - n // 2 - (1 if n > 3 else 0) for i, v in enumerate(nodes)}
+    elif kind == "one-hash":
+        m = {v: (i - 1) * (2 ** 61 - 1) for i, v in enumerate(nodes)}
+    else:
+        m = {v: np.float64(i) / 2 for i, v in enumerate(nodes)}
+    h = nx.relabel_nodes(g, m, copy=True)
+    if res is not None:
+        res.count("graphs_on_unusual_numeric_labels")
+        res.seen("unusual_label_kinds", kind)
+    return kind, h
